@@ -107,7 +107,7 @@ fn cmd_run(args: &[String]) -> i32 {
     }
     let level = match tier {
         Tier::Slice => 0,
-        Tier::Quick => 1,
+        Tier::Quick => 2,
         Tier::Thorough => 2,
     };
     let level = arg(args, "--cfg-level").and_then(|s| s.parse().ok()).unwrap_or(level);
